@@ -240,6 +240,13 @@ fn run_polygon(cx: &mut Cx, subs: &[Vec<IP>], close: &[bool], lo: i64, hi: i64, 
             winds.push(if w == Winding::Positive { 1 } else { 0 });
         }
     }
+    // the iterator form yields the same windings, one per sub-path
+    {
+        let via_iter: Vec<i32> = lyon_algorithms::winding::Windings(path.iter()).map(|w| if w == Winding::Positive { 1 } else { 0 }).collect();
+        if via_iter != winds || via_iter.len() != subs.len() {
+            cx.st.fail(jobj(&[("what", jstr("the Windings iterator differs from calling compute_winding per sub-path")), ("input", jstr(&format!("{}: {:?} vs {:?}", text, via_iter, winds)))]));
+        }
+    }
     // direct: shoelace in integers (quadrupled area because coordinates are doubled)
     for (i, s) in subs.iter().enumerate() {
         let mut sh = 0i64;
